@@ -21,7 +21,14 @@ type Tracer struct {
 	tid int
 	seq int
 	n   int
+	// a child tracer (With) writes through its parent and adds one field to every event
+	parent *Tracer
+	key    string
+	val    any
 }
+
+// With returns a tracer that writes through t, adding the field key=val to every event.
+func (t *Tracer) With(key string, val any) *Tracer { return &Tracer{parent: t, key: key, val: val} }
 
 func NewTracer(path string) (*Tracer, error) {
 	f, err := os.Create(path)
@@ -41,6 +48,11 @@ func (t *Tracer) Begin(tid int) {
 
 // Emit appends one event. "t" and "i" are added here.
 func (t *Tracer) Emit(m map[string]any) {
+	if t.parent != nil {
+		m[t.key] = t.val
+		t.parent.Emit(m)
+		return
+	}
 	t.mu.Lock()
 	defer t.mu.Unlock()
 	t.seq++
